@@ -109,6 +109,8 @@ package server
 //@   ensures added:  err == nil ==> (len(t.Listeners) == old(len(t.Listeners)) + 1 && t.Listeners[old(len(t.Listeners))] != nil && t.Listeners[old(len(t.Listeners))].Name == lnameOf(ListenerType, info) && t.Listeners[old(len(t.Listeners))].Type == ListenerType)
 //@   ensures kept:   forall(i, 0, old(len(t.Listeners)), t.Listeners[i] == old(t.Listeners)[i])
 //@   ensures failed: err != nil ==> len(t.Listeners) == old(len(t.Listeners))
+// a failing start fails before any listener object is created (hence started, persisted or advertised)
+//@   ensures early: err != nil ==> (!inscope("HTTPConfig") && !inscope("SmbConfig") && !inscope("ExtConfig"))
 //@   loop "for _, listener := range t.Listeners"
 //@     invariant none: forall(k, 0, idx__, t.Listeners[k].Name != lnameOf(ListenerType, info))
 
@@ -140,9 +142,15 @@ package server
 //@   loop "for i := range t.Listeners"
 //@     invariant done: forall(k, 0, idx__, t.Listeners[k].Name == newCfg(Config).Name ==> (unboxed(t.Listeners[k].Config, *handlers.HTTP).Config.UserAgent == newCfg(Config).UserAgent && sameslice(unboxed(t.Listeners[k].Config, *handlers.HTTP).Config.Headers, newCfg(Config).Headers) && sameslice(unboxed(t.Listeners[k].Config, *handlers.HTTP).Config.Uris, newCfg(Config).Uris) && unboxed(t.Listeners[k].Config, *handlers.HTTP).Config.BehindRedir == t.Profile.Config.Demon.TrustXForwardedFor))
 
+// removes exactly the first route with that endpoint; the others stay, in order
 //@ func (t *Teamserver) EndpointRemove(endpoint string) (r []*Endpoint)
 //@   requires nonnil: t != nil && forall(i, 0, len(t.Endpoints), t.Endpoints[i] != nil)
 //@   modifies t.Endpoints, elems(t.Endpoints)
+//@   ensures-local absent:  forall(k, 0, old(len(t.Endpoints)), old(t.Endpoints)[k].Endpoint != endpoint) ==> t.Endpoints == old(t.Endpoints)
+//@   ensures-local removed: forall(j, 0, old(len(t.Endpoints)), (old(t.Endpoints)[j].Endpoint == endpoint && forall(k, 0, j, old(t.Endpoints)[k].Endpoint != endpoint)) ==> t.Endpoints == cat(old(t.Endpoints)[:j], old(t.Endpoints)[j+1:]))
+//@   loop "for i := range t.Endpoints"
+//@     invariant none: forall(k, 0, idx__, t.Endpoints[k].Endpoint != endpoint)
+//@     invariant same: sameslice(t.Endpoints, old(t.Endpoints)) && t.Endpoints == old(t.Endpoints)
 
 // ---------------------------------------------------------------------------
 // C09: pivot links. "listed(p, c)": some entry of p's link list is c.
